@@ -11,6 +11,8 @@ echo "== base $(git rev-parse --short HEAD)"
 git apply /tmp/seed-out/$id/patch.diff || echo "PATCH DOES NOT APPLY"
 echo "== patch only"; cargo test --offline 2>&1 | grep "test result" 
 git apply /tmp/seed-out/$id/demo.diff || echo "DEMO DOES NOT APPLY"
+# a demonstration that needs the verification hooks is run with the guard cfg (SEED_RUSTFLAGS)
+if [ -n "$SEED_RUSTFLAGS" ]; then export RUSTFLAGS="$SEED_RUSTFLAGS"; echo "== (RUSTFLAGS=$RUSTFLAGS for the demo runs)"; fi
 echo "== patch + demo"; cargo test --offline 2>&1 | grep "test result\|^test .* FAILED"
 git apply -R /tmp/seed-out/$id/patch.diff
 echo "== demo only"; cargo test --offline 2>&1 | grep "test result"
